@@ -133,6 +133,52 @@ pub fn contract_int_roundtrip(x: i32) {
     assert!(warn.total() == 0);
 }
 
+/// contract Packer over a byte slice of every capacity 0..=7 (an int needs at most 5 bytes), after `pre` <= 2 raw
+/// bytes: write_int succeeds exactly when the canonical encoding fits what is left; then exactly those bytes were
+/// appended; on failure a CapacityError is reported and nothing beyond the capacity is reported as written.
+pub fn contract_packer_int_capacity(x: i32, cap: usize, pre: usize) {
+    if cap > 7 || pre > 2 || pre > cap {
+        return;
+    }
+    let (bytes, n) = encode(x);
+    let mut buf = [0xAAu8; 8];
+    let (ok, written_len, head_ok) = with_packer(&mut buf[..cap], |mut p| {
+        p.write_raw(&[0xEE, 0xEE][..pre]).unwrap();
+        let ok = p.write_int(x).is_ok();
+        let w = p.written();
+        let mut head_ok = w.len() >= pre;
+        let mut i = 0;
+        while i < 2 {
+            if i < pre && i < w.len() {
+                head_ok = head_ok && w[i] == 0xEE;
+            }
+            i += 1;
+        }
+        (ok, w.len(), head_ok)
+    });
+    assert!(head_ok);
+    assert!(ok == (pre + n <= cap));
+    assert!(written_len <= cap);
+    if ok {
+        assert!(written_len == pre + n);
+        let mut i = 0;
+        while i < 5 {
+            if i < n {
+                assert!(buf[pre + i] == bytes[i]);
+            }
+            i += 1;
+        }
+    }
+    // nothing past the capacity is touched
+    let mut j = 0;
+    while j < 8 {
+        if j >= cap {
+            assert!(buf[j] == 0xAA);
+        }
+        j += 1;
+    }
+}
+
 /// contract read_int, every byte string of length 0..=5 (longer strings: the
 /// decoder never looks past five bytes, proved by `consumed <= 5`):
 ///  - Err iff the string ends while the extend bit is set;
@@ -282,6 +328,15 @@ pub mod proofs {
         draw::assume(len <= 5);
         draw::reached();
         contract_int_decode(b, len);
+    });
+
+    harness!(bounded_packer_int_capacity, unwind = 9, {
+        let x = draw::i32();
+        let cap = draw::usize();
+        let pre = draw::usize();
+        draw::assume(cap <= 7 && pre <= 2 && pre <= cap);
+        draw::reached();
+        contract_packer_int_capacity(x, cap, pre);
     });
 
     harness!(complete_to_bit, {
